@@ -201,7 +201,8 @@ Print Assumptions C18_reachable_step.
 
 (* (4a) spelled out: a node is added by the control flows only when no removal is pending and every current
         replica answered synced; (4b) the coordinator marks a removal in doCheckNamespaces /
-        handleNamespaceMigrate only when more than replica/2 of the replicas are on registered nodes;
+        handleNamespaceMigrate only when more than replica/2 of the replicas are REACHABLE: on a registered node
+        AND answering the sync query (a registered node that hangs or answers not-synced does not count);
         (4c) in a balance round or a node decommission only when every remaining replica answered synced, and
         those are a strict majority *)
 Theorem C18_add_only_when_synced : forall env a,
@@ -213,9 +214,10 @@ Proof.
 Qed.
 Print Assumptions C18_add_only_when_synced.
 
-Theorem C18_mark_needs_alive_majority : forall replica cur a,
-  att_alive replica cur a -> new_mark a -> replica / 2 < count_in cur (raft_nodes (a_before a)).
-Proof. intros replica cur a H Hm. exact (H Hm). Qed.
+Theorem C18_mark_needs_alive_majority : forall replica env cur a,
+  att_alive replica env cur a -> new_mark a ->
+  replica / 2 < len (filter (fun n => mem n cur && synced_of env n) (raft_nodes (a_before a))).
+Proof. intros replica env cur a H Hm. exact (H Hm). Qed.
 Print Assumptions C18_mark_needs_alive_majority.
 
 Theorem C18_mark_in_balance_needs_ready_majority : forall replica env a,
